@@ -223,8 +223,16 @@ def _a5(ctx, R="C14-A5"):
                   "is dropped although no reference point beats it", "column absent from the rows => `|= True` on the other branch")
     ands = [s for s in fi.stmts() if isinstance(s, ast.AugAssign) and norm(s.target) == "nondominated_by_all"]
     ctx.require(len(ands) >= 1, R, "across-reference accumulation")
+    pm_ = parent_map(fi.node)
     for s in ands:
         ctx.check(isinstance(s.op, ast.BitAnd), R, fi, s, "results across reference points are not combined with &=", "across reference points: &=")
+        if norm(s.value) == "nondominated":
+            anc = pm_.get(id(s))
+            while anc is not None and not isinstance(anc, ast.For):
+                anc = pm_.get(id(anc))
+            ok_place = isinstance(anc, ast.For) and norm(anc.iter) == "self.compare_to"
+            ctx.check(ok_place, R, fi, s, "the per-reference mask is folded into the result inside the per-column loop: after the first column the row must already be non-dominated, i.e. a row survives only if it beats "
+                      "every reference point in the first compared column -- the staged front collapses to its extremes", "folded once per reference point, after all its columns")
         v = norm(s.value)
         ok = v in ("nondominated", "self._pmapping_row_filter_function(mapping)")
         ctx.check(ok, R, fi, s, f"rows are additionally filtered by `{v}`: only the per-reference-point mask and the caller's row filter may remove rows; any other test (bounding boxes, per-column "
@@ -361,7 +369,17 @@ def _a8(ctx, R="C14-A8"):
     stores = [st for st in pw.walk(into_nested=True) if isinstance(st, (ast.Assign, ast.AugAssign)) for t, v, _ in assigned_targets(st)
               if isinstance(t, (ast.Attribute, ast.Subscript)) and isinstance(_root(t), ast.Name) and _root(t).id in params]
     ctx.check(not stores, R, pw, stores[0] if stores else pw.node, "the pruning round stores into the groups it was given", "no store into the given groups")
-    ctx.floor(R, 2)
+    # ... and make_pareto(inplace=False) really leaves the table alone: every store to `self` is under `inplace`
+    PD_ = "accelforge/mapper/FFM/_join_pmappings/pmapping_dataframe.py"
+    mp = ctx.func(PD_, "PmappingDataframe.make_pareto", R)
+    mcfg = ctx.cfg(mp)
+    sst = [st for st in mp.stmts() if isinstance(st, (ast.Assign, ast.AugAssign)) for t, v, _ in assigned_targets(st) if isinstance(t, (ast.Attribute, ast.Subscript)) and isinstance(_root(t), ast.Name) and _root(t).id == "self"]
+    ctx.require(len(sst) >= 1, R, "make_pareto: in-place store")
+    for st in sst:
+        conds = [(norm(h.ast.test), lab) for h, lab in mcfg.control_conditions(mcfg.node_of(st)) if h.kind == "if"]
+        ctx.check(("inplace", "true") in conds, R, mp, st, f"`{norm(st)[:80]}` changes the table although inplace may be False: make_pareto(inplace=False) returns a new table AND prunes the one it was called on, "
+                  "so the dirty round prunes the shared groups whenever the job runs in-process", "table replaced only under `inplace`")
+    ctx.floor(R, 3)
 
 
 def _root(e):
@@ -381,6 +399,8 @@ def check(ctx):
 
 
 VARIANTS = [
+    {"kind": "F", "name": "make-pareto-prunes-self-when-not-inplace", "rule": "C14-A8", "edits": [("accelforge/mapper/FFM/_join_pmappings/pmapping_dataframe.py", "        new_data = makepareto(\n            self.data,\n            columns,", "        self._data = new_data = makepareto(\n            self.data,\n            columns,")]},
+    {"kind": "F", "name": "fold-inside-column-loop", "rule": "C14-A5", "edits": [(JP, "                    nondominated |= edp_mapping[k] <= v\n            nondominated_by_all &= nondominated", "                    nondominated |= edp_mapping[k] <= v\n                nondominated_by_all &= nondominated")]},
     {"kind": "F", "name": "dirty-prune-in-place", "rule": "C14-A8", "edits": [(JP, "                resource_usage_tolerance=resource_usage_tolerance,\n                inplace=False,\n            ),", "                resource_usage_tolerance=resource_usage_tolerance,\n            ),")]},
     {"kind": "F", "name": "missing-column-skipped", "rule": "C14-A5", "edits": [(JP, "                if k not in edp_mapping.columns:\n                    nondominated |= True\n                else:\n                    nondominated |= edp_mapping[k] <= v", "                if k in edp_mapping.columns:\n                    nondominated |= edp_mapping[k] <= v")]},
     {"kind": "F", "name": "bounding-box-prefilter", "rule": "C14-A5", "edits": [(JP, "        for c in self.compare_to:\n            nondominated = np.zeros", "        for k0, v0 in self.compare_to[0].items():\n            if k0 in edp_mapping.columns:\n                nondominated_by_all &= (edp_mapping[k0] <= v0).to_numpy()\n        for c in self.compare_to:\n            nondominated = np.zeros")]},
